@@ -31,7 +31,9 @@ TRUSTED = ["harness/h_C19.cpp builds rtosc::Ports with run-time metadata, reache
            "emulated by rounding double results (exact for + - * /)"]
 ASSUMPTIONS = ["createBinding is called with a slot index inside the array (the code has no range check there)",
                "MIDI channel and controller numbers are non-negative; data bytes small enough that (hi<<7)+lo does not overflow",
-               "slot values, gains and offsets are finite floats; int-typed parameters have integer bounds below 2^24",
+               "in-range, address and type are checked for every slot value, gain and offset (infinities, NaN and "
+               "overflowing gains included); monotonicity and the default linear map for finite slot values; "
+               "int-typed parameters have integer bounds below 2^24",
                "log-scale parameters: values compared within a relative tolerance of 1e-5 (expf/logf are libm's); "
                "model and implementation are not compared bit-exactly on log-scale values (masked in canon)",
                "a learn request of a slot that is already waiting or already bound to a CC is ignored (as coded); "
@@ -323,8 +325,9 @@ def check_value(sb, v, ty, bits, seen_all):
     slack = TOL * max(abs(lo), abs(hi), 1e-30) if sb.log else 0.0
     if not (lo - slack <= out <= hi + slack):
         return "in-range: value %r outside the declared [%r, %r]" % (out, lo, hi)
-    if lo <= hi:
-        # monotone for positive gain
+    if lo <= hi and math.isfinite(v):
+        # monotone for positive gain (finite slot values: an infinite slot value times a zero
+        # range is NaN, which the repaired clamp sends to the minimum)
         seen = seen_all.setdefault(sb.key, [])
         if sb.egain > 0:
             for v0, o0 in seen:
